@@ -361,7 +361,7 @@ def run(chk):
     rng = chk.rng
     from .. import translate_reorder
     gen_done, gen_unt = translate_reorder.translate(chk)
-    chk.lean_build(['PeptVerif.Props.C07', 'PeptVerif.Props.C07Canon', 'PeptVerif.Props.C11Gen'], DRV)
+    chk.lean_build(['PeptVerif.Props.C07', 'PeptVerif.Props.C07Canon', 'PeptVerif.Props.C07Ext', 'PeptVerif.Props.C11Gen'], DRV)
     chk.trusted += [
         'modelled (Model/Reorder.lean, Model/Spans.lean): ProFormaAnnotation.slice, has_mods, _return_digested_sequences (annotation '
         'branch, fast and general path), digest from cleavage sites to pieces; not modelled: regex -> cleavage sites (computed by the '
@@ -457,6 +457,15 @@ def run(chk):
 
     chk.correspond('generators', DRV, gens, gen_line, dig_impl, compare=lambda im, m: im == canon_reply(m),
                    nontrivial_fn=nontrivial)
+
+    # round 5: the generators end to end in the model (span (0,n,0) -> span builder -> dispatcher; Model/C07Gen.lean): nothing
+    # of the case is computed by the implementation on the model side
+    def gen_model_line(c):
+        _, d, which, lo, hi = c
+        return f'gen\t{which}\t{d}\t{opt(lo)}\t{opt(hi)}'
+
+    chk.correspond('generators(model spans)', DRV, gens, gen_model_line, dig_impl,
+                   compare=lambda im, m: im == canon_reply(m), nontrivial_fn=nontrivial)
 
     rt_gen = [c for c in gens[::3] if cc.in_reparse_domain(annot.undump(c[1]))]
     chk.correspond('generators(str input)', DRV, rt_gen, gen_line, gen_impl_str,
@@ -597,7 +606,7 @@ def run(chk):
 
     if tier == 'thorough':
         chk.leanchecker(['PeptVerif.Model.Reorder', 'PeptVerif.Model.C07Strings', 'PeptVerif.Lemmas.Reorder', 'PeptVerif.Lemmas.ReorderCanon',
-                         'PeptVerif.Props.C07', 'PeptVerif.Props.C07Canon', 'PeptVerif.Generated.ReorderPy', 'PeptVerif.Props.C11Gen'])
+                         'PeptVerif.Props.C07', 'PeptVerif.Props.C07Canon', 'PeptVerif.Model.C07Gen', 'PeptVerif.Props.C07Ext', 'PeptVerif.Generated.ReorderPy', 'PeptVerif.Props.C11Gen'])
     return chk.finish(classify)
 
 
